@@ -502,7 +502,8 @@ impl FormatSpec {
                 *case,
                 self.alternate_form,
             )),
-            Some(FormatType::Percentage) => match magnitude {
+            // the value is scaled first: a finite magnitude can become infinite
+            Some(FormatType::Percentage) => match magnitude * 100.0 {
                 magnitude if magnitude.is_nan() => Ok("nan%".to_owned()),
                 magnitude if magnitude.is_infinite() => Ok("inf%".to_owned()),
                 _ => {
